@@ -58,7 +58,18 @@ def case_single(draw, tier):
                                   st.floats(0.5, 1.9), st.sampled_from([0.625, 0.75, 1.0, 1.5])))   # above Nyquist: admissible (warning only)
     if case["by"] == "fres":
         case["fres_jitter"] = draw(st.floats(-0.3, 0.3))     # fres = fs/(L+jitter)
+    # spelling of the request: python numbers, or numpy scalars (float32: the request is the value it denotes)
+    case["argtype"] = draw(st.sampled_from(["plain", "plain", "plain", "np64", "np32", "np32"]))
     return case
+
+
+def _spell(how, v):
+    if how == "np32":
+        a = np.float32(v)
+        return a, float(a)
+    if how == "np64":
+        return np.float64(v), float(v)
+    return float(v), float(v)
 
 
 @st.composite
@@ -91,11 +102,7 @@ def check_bins(res, x, y, fs, cfg, mode, idxs, viol, where):
         om = 2 * np.pi * f / fs
         w = wref(L, cfg["psll"])
         ref = refs.dft_stats(x, y, D, L, w, om, cfg["order"])
-        Sx = tol.seg_scale(x, D, L, w, cfg["order"])
-        Sy = Sx if y is None else tol.seg_scale(y, D, L, w, cfg["order"])
-        Sxy = (Sx ** 0.5 * Sy ** 0.5)
-        bx, by, bxy = tol.budget2(L, om, Sx, len(D)), tol.budget2(L, om, Sy, len(D)), tol.budget2(L, om, Sxy, len(D))
-        b4 = tol.budget4(L, om, Sx, Sy, len(D))
+        bx, by, bxy, b4 = tol.budgets(x, y, D, L, w, om, cfg["order"], ref)
         XY = complex(res.XY[j])
         for name, a, b, bud in (("XX", float(res.XX[j]), ref["XX"], bx), ("YY", float(res.YY[j]), ref["YY"], by),
                                 ("ReXY", XY.real, ref["XY"].real, bxy), ("ImXY", XY.imag, ref["XY"].imag, bxy),
@@ -195,19 +202,20 @@ def oracle_single(case):
     fs, cfg, mode, N = case["fs"], case["cfg"], case["mode"], case["N"]
     x, y, data = _data(case)
     an = gens.make_analyzer(data, fs, cfg)
-    freq = case["fbin"] * fs
+    how = case.get("argtype", "plain")
+    freq_arg, freq = _spell(how, case["fbin"] * fs)     # `freq`: the number the argument denotes
     Lreq = int(case["L"])
     if case["by"] == "L":
-        res = an.compute_single_bin(freq, L=Lreq)
+        res = an.compute_single_bin(freq_arg, L=(Lreq if how == "plain" else np.int64(Lreq)))
         Lexp_lo = Lexp_hi = Lreq
         fres = fs / Lreq
     else:
         fres = fs / (Lreq + case["fres_jitter"])
-        ideal = fs / fres
-        if ideal > N + 0.5:
+        if fs / fres > N + 0.5:
             fres = fs / N
-            ideal = float(N)
-        res = an.compute_single_bin(freq, fres=fres)
+        fres_arg, fres = _spell(how, fres)
+        ideal = min(fs / fres, float(N))
+        res = an.compute_single_bin(freq_arg, fres=fres_arg)
         Lexp_lo, Lexp_hi = max(1, int(np.floor(ideal - 0.5 - 1e-9))), max(1, int(np.ceil(ideal + 0.5 + 1e-9)))
     viol = []
     if len(res.f) != 1:
@@ -228,6 +236,7 @@ def oracle_single(case):
               "cell:%s,o=%d" % (cfg["backend"], cfg["order"])]
     if case["fbin"] > 0.5:
         labels.append("single:above-nyquist")
+    labels.append("single:argtype=" + how)
     return Res(viol, D.size >= 2, labels, {"worst_err_in_eps_L_g_S": worst})
 
 
